@@ -68,6 +68,15 @@ def gen(rnd, tier):
             'extra': rnd.choice([0, 0, 0, 1, 2]), 'extra_kind': rnd.choice(['H', 'O', 'foreign']),
             'neighbours': [rnd.choice(aa) for _ in range(rnd.randint(1, 3))] if peptide else [],
             'position_in_peptide': rnd.randint(0, 3), 'seed': rnd.randrange(10 ** 9)}
+    if ffname == 'charmm' and rnd.random() < 0.45:
+        # hostile names: the residue carries the atom names of an isosteric neighbour (same heavy-atom shape, other
+        # elements), both given without hydrogens; the neighbour is repaired first and shares the symmetry cache
+        nb, tg = rnd.choice([('ASP', 'ASN'), ('ASP', 'ASN'), ('GLU', 'GLN'), ('GLU', 'GLN'), ('VAL', 'THR'), ('VAL', 'THR'),
+                             ('ASN', 'ASP'), ('GLN', 'GLU'), ('THR', 'VAL'), ('SER', 'CYS'), ('CYS', 'SER')])
+        case.update({'block': tg, 'neighbours': [nb], 'position_in_peptide': 1, 'borrow': nb, 'scramble': 'borrow', 'remove': 0,
+                     'extra': 0, 'swap_order': rnd.random() < 0.8, 'borrow_fraction': rnd.choice([1.0, 1.0, 0.5, 0.3]),
+                     'order_swaps': rnd.choice([0, 0, 1, 2])})
+        return case
     if len(ff.blocks[block]) > 22 and case['scramble'] in ('all', 'swap-same-element'):
         case['scramble'] = 'hydrogens'       # keeps the exponential search within the watchdog most of the time
     return case
@@ -93,12 +102,23 @@ def build(case):
             removed = [u, v][:max(2, k)] if len(names) > 2 else [u]
         else:
             removed = rnd.sample(names, k)
+    if case.get('borrow'):
+        removed = [n for n in names if blk.nodes[n]['element'] == 'H']
     kept = [n for n in names if n not in removed]
     if not kept:
         kept, removed = names[:1], names[1:]
     seq = list(case['neighbours'])
     pos = min(case['position_in_peptide'], len(seq))
     seq.insert(pos, case['block'])
+    borrow_iso = None
+    if case.get('borrow'):
+        from ..oracles import match as _match
+        nbk = ff.blocks[case['borrow']]
+        heavy_n = nbk.subgraph([n for n in nbk.nodes if nbk.nodes[n]['element'] != 'H'])
+        heavy_t = blk.subgraph(kept)
+        isos = list(_match.induced_isos(heavy_n, heavy_t, lambda g, p_: True))   # {target atom: neighbour atom}; elements ignored
+        if isos:
+            borrow_iso = rnd.choice(isos)
     mol = Molecule(force_field=ff)
     k = 0
     key = {}
@@ -106,7 +126,17 @@ def build(case):
     for ri, rn in enumerate(seq):
         b = ff.blocks[rn]
         atom_names = [n for n in b.nodes if not (ri == pos and n in removed)]
-        if ri == pos and case['permute']:
+        if case.get('borrow'):
+            atom_names = [n for n in atom_names if b.nodes[n]['element'] != 'H']
+        if ri == pos and borrow_iso and case.get('swap_order'):
+            # list the atoms in the order in which the neighbour lists the atoms whose names they borrow
+            nb_order = list(ff.blocks[case['borrow']].nodes)
+            atom_names.sort(key=lambda a: nb_order.index(borrow_iso[a]))
+            for _ in range(case.get('order_swaps', 0)):
+                if len(atom_names) >= 2:
+                    i = rnd.randrange(len(atom_names) - 1)
+                    atom_names[i], atom_names[i + 1] = atom_names[i + 1], atom_names[i]
+        elif ri == pos and case['permute']:
             rnd.shuffle(atom_names)
         for an in atom_names:
             entries.append((ri, an))
@@ -118,7 +148,12 @@ def build(case):
         k += 1
     for ri, rn in enumerate(seq):
         b = ff.blocks[rn]
-        for u, v in b.edges:
+        edges = list(b.edges)
+        if ri == pos and borrow_iso and case.get('swap_order'):
+            inv = {v: k for k, v in borrow_iso.items()}
+            nbk = ff.blocks[case['borrow']]
+            edges = [(inv[u], inv[v]) for u, v in nbk.edges if u in inv and v in inv]
+        for u, v in edges:
             if (ri, u) in key and (ri, v) in key:
                 mol.add_edge(key[(ri, u)], key[(ri, v)])
         if ri and (ri - 1, 'C') in key and (ri, 'N') in key:
@@ -133,6 +168,11 @@ def build(case):
         hs = [n for an, n in target.items() if mol.nodes[n]['element'] == 'H']
         for i, n in enumerate(hs):
             mol.nodes[n]['atomname'] = 'HX%d' % i
+    elif mode == 'borrow':
+        if borrow_iso:
+            for an, n in target.items():
+                if borrow_iso[an] != an and rnd.random() < case.get('borrow_fraction', 1.0):
+                    mol.nodes[n]['atomname'] = borrow_iso[an]
     elif mode == 'swap-same-element':
         by_el = {}
         for an, n in target.items():
